@@ -174,7 +174,7 @@ def gridLine (g : Grid) (hex : Bool) (nag : Nat) (nc : NCache) (hc : HCache) (ls
     | some k, some cs =>
       if cs.length = k then
         match g.rawCells cs with
-        | .ok cells => (keep, sp (fmtIds (cellsContents g cells)))
+        | .ok cells => (keep, sp (fmtIds (cellsContentsT fz g cells)))
         | .error e => (keep, fmtErr e)
       else bad
     | _, _ => bad
@@ -254,7 +254,7 @@ def gridLine (g : Grid) (hex : Bool) (nag : Nat) (nc : NCache) (hc : HCache) (ls
     | some x, some y => (keep, if g.oob (x, y) then "ok 1" else "ok 0")
     | _, _ => bad
   | ["mask"] => (keep, sp (fmtBits (g.allCells.map g.mask)))
-  | ["agents"] => (keep, sp (fmtIds (g.agentsListT fz)))   -- `if not entry: continue` skips a falsy occupant of a single-occupancy cell
+  | ["agents"] => (keep, sp (fmtIds (g.agentsListT fz)))   -- with the emptiness test of the generated table (`is None` since the fix of L-AGENTS-FALSY)
   | ["truth", a, k, v] =>
     -- the agent's class gets `__bool__` returning v (k = b, v = 0|1) or `__len__` returning v (k = l): bool(agent) = (v ≠ 0)
     match a.toNat?, v.toNat? with
@@ -320,7 +320,7 @@ def gridLine (g : Grid) (hex : Bool) (nag : Nat) (nc : NCache) (hc : HCache) (ls
         | .ok cells =>
           if op = "nbhd" || op = "inbhd" then (st, sp (fmtCoords cells))
           else if op = "nmask" then (st, sp (fmtBits (g.allCells.map fun c => decide (c ∈ cells))))
-          else (st, sp (fmtIds (cellsContents g cells)))
+          else (st, sp (fmtIds (cellsContentsT fz g cells)))
       else bad
     | _, _, _, _, _ => bad
   | [op, x, y, ic, r] =>
@@ -331,7 +331,7 @@ def gridLine (g : Grid) (hex : Bool) (nag : Nat) (nc : NCache) (hc : HCache) (ls
         let (hc', cells) := getHexNbhd g.dim hc { pos := (x, y), ic := ic, r := r }
         let st := St.grid g hex nag nc hc' ls fz
         if op = "hnbhd" || op = "ihnbhd" then (st, sp (fmtCoords cells))
-        else match hexNeighbors g cells with
+        else match hexNeighborsT fz g cells with
           | .ok l => (st, sp (fmtIds l))
           | .error e => (st, fmtErr e)
       else bad
